@@ -10,6 +10,7 @@ import (
 	"sort"
 	"strings"
 	"testing"
+	"time"
 
 	"github.com/buzzfeed/sso/verifharness/sut"
 	"github.com/buzzfeed/sso/verifharness/vh"
@@ -28,6 +29,7 @@ var connTricks = []string{
 }
 
 type stackKind struct {
+	groups      []string // allowed groups of the upstream (nil: not group-gated)
 	name        string
 	ps          *sut.ProxyStack
 	host        string
@@ -69,7 +71,9 @@ func TestProp(t *testing.T) {
 		InjectRequestHeaders: map[string]string{"X-Forwarded-Email": "injected@config.test", "X-Forwarded-User": "injected", "X-Custom": "cfg"}}}})
 	d1, e3 := sut.NewDirectProxy(sut.DirectOpts{Host: "direct.sso.test", PassAccessToken: true, SkipAuthRegex: []string{"^/public/"}, AllowedEmailDomains: []string{"corp.test"}, Signer: true})
 	d2, e4 := sut.NewDirectProxy(sut.DirectOpts{Host: "pre.sso.test", SkipAuthPreflight: true, SkipAuthRegex: []string{"^/public/"}, AllowedEmailDomains: []string{"corp.test"}})
+	d3, e5 := sut.NewDirectProxy(sut.DirectOpts{Host: "grp.sso.test", PassAccessToken: true, SkipAuthRegex: []string{"^/public/"}, AllowedGroups: []string{"eng", "ops", "qa"}})
 	stacks := []*stackKind{
+		mk("direct-pass-token-groups", d3, e5, "grp.sso.test", true, false, false),
 		mk("yaml", y1, e1, "yaml.sso.test", false, false, false),
 		mk("yaml-inject", y2, e2, "inject.sso.test", false, false, true),
 		mk("direct-pass-token", d1, e3, "direct.sso.test", true, false, false),
@@ -82,6 +86,7 @@ func TestProp(t *testing.T) {
 		}
 		defer s.ps.Close()
 	}
+	stacks[0].groups = []string{"eng", "ops", "qa"}
 
 	n := env.Pick(4000, 120000)
 	only, skip := env.Only("c03")
@@ -90,6 +95,8 @@ func TestProp(t *testing.T) {
 	}
 	if env.Replay == "" {
 		rep.Floor("forwarded_authenticated", 300)
+		rep.Floor("forwarded_after_due_validate", 50)
+		rep.Floor("forwarded_after_due_refresh", 50)
 		rep.Floor("authenticated_via_favicon_handler", 50)
 		rep.Floor("forwarded_skip_auth", 300)
 		rep.Floor("forwarded_preflight", 30)
@@ -100,6 +107,13 @@ func TestProp(t *testing.T) {
 	if rep.Finish() == "violated" {
 		t.Fatalf("C03 violated")
 	}
+}
+
+func sameSet(a, b string) bool {
+	x, y := strings.Split(a, ","), strings.Split(b, ",")
+	sort.Strings(x)
+	sort.Strings(y)
+	return strings.Join(x, ",") == strings.Join(y, ",")
 }
 
 func randTok(r *rand.Rand, n int) string {
@@ -126,7 +140,9 @@ func runCase(rep *vh.Report, env vh.Env, stacks []*stackKind, i int) {
 		lay[k] = dim(len(layouts))
 	}
 	cookieLayout := dim(6)
-	emptyToken := dim(3) == 0
+	// (the strided cell is exhausted by the dimensions above: the remaining ones come from the case PRNG)
+	emptyToken := r.Intn(3) == 0
+	dueKind := []string{"none", "none", "validate", "refresh"}[r.Intn(4)]
 	if mode == "preflight" && !sk.preflight {
 		mode = "skip-auth"
 	}
@@ -139,6 +155,49 @@ func runCase(rep *vh.Report, env vh.Env, stacks []*stackKind, i int) {
 	}
 	if emptyToken {
 		sess.AccessToken = ""
+	}
+	// A check that is due on this very request changes the session (new token, new group list): the
+	// upstream must see the values of the session as it is AFTER the check, not as the cookie carried it.
+	wantGroups, wantGroupsSet := strings.Join(sess.Groups, ","), false
+	wantToken := sess.AccessToken
+	if mode != "authenticated" || emptyToken {
+		dueKind = "none"
+	}
+	if sk.groups != nil {
+		sess.Groups = []string{sk.groups[r.Intn(len(sk.groups))]}
+		wantGroups = strings.Join(sess.Groups, ",")
+	}
+	if dueKind != "none" {
+		memberOf := []string{"unlisted-" + randTok(r, 3)}
+		var now []string
+		for _, g := range sk.groups {
+			if r.Intn(2) == 0 {
+				now = append(now, g)
+			}
+		}
+		if sk.groups != nil && len(now) == 0 {
+			now = []string{sk.groups[r.Intn(len(sk.groups))]}
+		}
+		memberOf = append(memberOf, now...)
+		sort.Strings(now)
+		wantGroups, wantGroupsSet = strings.Join(now, ","), true
+		newTok := "nt-" + sut.NewID()
+		ps.Auth.Set("validate", sess.AccessToken, sut.ValidateOK())
+		ps.Auth.Set("profile", sess.AccessToken, sut.ProfileFaithful(email, memberOf))
+		ps.Auth.Set("profile", newTok, sut.ProfileFaithful(email, memberOf))
+		ps.Auth.Set("refresh", sess.RefreshToken, sut.RefreshOK(newTok, 3600))
+		at, rt := sess.AccessToken, sess.RefreshToken
+		defer func() {
+			ps.Auth.Unset("validate", at)
+			ps.Auth.Unset("profile", at)
+			ps.Auth.Unset("profile", newTok)
+			ps.Auth.Unset("refresh", rt)
+		}()
+		sess.ValidDeadline = time.Now().Add(-2 * time.Minute)
+		if dueKind == "refresh" {
+			sess.RefreshDeadline = time.Now().Add(-2 * time.Minute)
+			wantToken = newTok
+		}
 	}
 	sealed := ps.Seal(sess)
 
@@ -275,7 +334,10 @@ func runCase(rep *vh.Report, env vh.Env, stacks []*stackKind, i int) {
 	site := "stack=" + sk.name
 	if authenticated {
 		rep.Count("forwarded_authenticated", 1)
-		want := map[string]string{"X-Forwarded-User": sess.User, "X-Forwarded-Email": sess.Email, "X-Forwarded-Groups": strings.Join(sess.Groups, ",")}
+		if dueKind != "none" {
+			rep.Count("forwarded_after_due_"+dueKind, 1)
+		}
+		want := map[string]string{"X-Forwarded-User": sess.User, "X-Forwarded-Email": sess.Email, "X-Forwarded-Groups": wantGroups}
 		for name, w := range want {
 			g := got(name)
 			switch {
@@ -285,8 +347,13 @@ func runCase(rep *vh.Report, env vh.Env, stacks []*stackKind, i int) {
 				rep.Count("empty_session_value_header_absent", 1)
 			case len(g) == 0:
 				rep.Violate("c03", i, fmt.Sprintf("authenticated: %s missing-at-upstream conn=%s", name, connClass), fmt.Sprintf("upstream received no %s (client Connection: %q)", name, conn), kc)
+			case name == "X-Forwarded-Groups" && wantGroupsSet && len(g) == 1 && sameSet(g[0], w):
+				// the order in which the provider lists the groups is not part of the session's value
 			case len(g) != 1 || g[0] != w:
 				cls := "differs-from-session"
+				if dueKind != "none" {
+					cls = "differs-from-session-after-due-" + dueKind
+				}
 				for _, v := range g {
 					if strings.Contains(v, "evil-") {
 						cls = "client-value-got-through"
@@ -303,8 +370,12 @@ func runCase(rep *vh.Report, env vh.Env, stacks []*stackKind, i int) {
 			rep.Count("forwarded_with_pass_token", 1)
 			if len(g) == 0 {
 				rep.Violate("c03", i, "authenticated: X-Forwarded-Access-Token missing-at-upstream conn="+connClass, fmt.Sprintf("pass_access_token on, token non-empty, upstream got none (Connection: %q)", conn), kc)
-			} else if len(g) != 1 || g[0] != sess.AccessToken {
-				rep.Violate("c03", i, "authenticated: X-Forwarded-Access-Token differs-from-session", fmt.Sprintf("upstream received %q", g), kc)
+			} else if len(g) != 1 || g[0] != wantToken {
+				cls := "differs-from-session"
+				if dueKind != "none" {
+					cls = "differs-from-session-after-due-" + dueKind
+				}
+				rep.Violate("c03", i, "authenticated: X-Forwarded-Access-Token "+cls, fmt.Sprintf("upstream received %q, the session's token after this request is %q", g, wantToken), kc)
 			}
 		} else if len(g) != 0 {
 			why := "option-off"
